@@ -6,3 +6,84 @@ T.register("C03", __name__, T.h_keys, {}, [GRAPHS[g] for g in sorted(GRAPHS)], l
            what="every reported key is present in o; evaluating on o restricted to exactly the reported keys gives the same "
                 "outcome and reports the same keys",
            bounds="one symbolic dictionary")
+
+# ---------------------------------------------------------------------------------------------------------
+import labrea.runtime as rt
+import labrea.types as ltypes
+from labrea import Option
+from labrea.collections import evaluatable_tuple
+
+from engine.api import harness
+from engine.hutil import note, untraced
+from engine.stubs import canon
+
+
+def _val(kind, n, b):
+    return b if kind == 1 else (None if kind == 2 else n)
+
+
+@harness("C03", lemma="K3-lemma-J", pre=["-50 <= n1 <= 50", "-50 <= n2 <= 50", "-50 <= m1 <= 50", "-50 <= m2 <= 50"],
+         cubes={"k1": [0, 1, 2], "k2": [0, 1, 2]},
+         example=dict(n1=1, n2=1, m1=2, m2=3, k1=0, k2=0, b1=True, b2=False), timeout=600,
+         bounds="the REAL fingerprint() with the stock json encoder on a node reporting keys A and S.X; values: ints in -50..50, "
+                "booleans, None (typed: True vs 1)",
+         what="lemma J (discharges stub S1): two dictionaries with the same reported keys have equal fingerprints exactly when the "
+              "values under the reported keys are equal in the typed sense the harnesses use (canon)")
+def lemma_j(n1: int, n2: int, m1: int, m2: int, k1: int, k2: int, b1: bool, b2: bool) -> int:
+    from engine import side
+    if side.SYMBOLIC:
+        from engine import patches
+        patches.EXACT["on"] = True          # the json text of ints is the subject here: no placeholder (engine patch E5)
+    node = evaluatable_tuple(Option("A"), Option("S.X"))
+    o1 = {"A": _val(k1, n1, b1), "S": {"X": m1}, "U": 1}
+    o2 = {"S": {"X": m2}, "A": _val(k2, n2, b2)}
+    f1, f2 = node.fingerprint(o1), node.fingerprint(o2)
+    same_vals = canon([o1["A"], m1]) == canon([o2["A"], m2])
+    note("o1", o1, "o2", o2, "fingerprints equal", f1 == f2, "typed values equal", same_vals)
+    if (f1 == f2) != same_vals:
+        return 0
+    return 2
+
+
+class _PermSet(set):
+    """A set whose iteration order is chosen by a (symbolic) permutation index: models PYTHONHASHSEED."""
+
+    def __init__(self, items, perm):
+        super().__init__(items)
+        self._items = sorted(items)
+        self._perm = perm
+
+    def __iter__(self):
+        items = list(self._items)
+        order = []
+        p = self._perm
+        # decode a permutation of up to 3 elements from p in 0..5 (Lehmer code), comparisons only
+        if len(items) >= 2:
+            if p == 1 or p == 3 or p == 5:
+                items[0], items[1] = items[1], items[0]
+        if len(items) >= 3:
+            if p == 2 or p == 3:
+                items[0], items[2] = items[2], items[0]
+            elif p == 4 or p == 5:
+                items[1], items[2] = items[2], items[1]
+        return iter(items)
+
+
+@harness("C03", lemma="K4-hash-seed", pre=["0 <= perm <= 5"], example=dict(perm=3, a=1, b=2, c=3), timeout=300,
+         bounds="a node reporting 3 keys; a KeysRequest handler (public API) returns the real key set wrapped in a set whose iteration "
+                "order is any of the 6 permutations; option values unbounded ints (abstract json, stub S1)", stubs=("S1",),
+         what="the fingerprint is the same for every iteration order of the key set (the only channel through which the hash seed of "
+              "the process can reach it)")
+def hash_seed(perm: int, a: int, b: int, c: int) -> int:
+    node = evaluatable_tuple(Option("KA"), Option("KB"), Option("S.KC"))
+    o = {"KA": a, "KB": b, "S": {"KC": c}}
+    base = node.fingerprint(o)
+    default = rt._DEFAULT_HANDLERS[ltypes.KeysRequest]
+
+    def h(request):
+        return _PermSet(default(request), perm)
+
+    with rt.handle(ltypes.KeysRequest, h):
+        permuted = node.fingerprint(o)
+    note("permutation", perm, "fingerprints equal", base == permuted)
+    return 2 if base == permuted else 0
